@@ -110,6 +110,11 @@ def run(chk):
     trace = os.path.join(vplib.sub("c16"), "trace.ndjson")
     nk = 5000 if thorough else 250
     wtrace = os.path.join(vplib.sub("c16"), "wtrace.ndjson")
+    # the worker's search step of SafePrimeWorkers.tla ends when the pool is stopped: timed at the sizes of real keys
+    sl = vplib.vh("kg", ["stoplat", "--tier", T, "--seed", str(chk.seed)], timeout=600)
+    if not sl["violations"] and (sl.get("counts", {}).get("stoplat:pool-gone", 0) != 2 or sl.get("counts", {}).get("stoplat:generate-returned", 0) != 2):
+        raise vplib.Machinery("stop latency run incomplete: %s" % sl.get("counts"))
+    chk.add_replay(sl, "stop_latency")
     vol = vplib.vh("kg", ["volume", "--n", str(nk), "--tier", T, "--seed", str(chk.seed), trace, wtrace], timeout=3000)
     chk.add_replay(vol, "volume")
     # 3a. every real worker goroutine's hook sequence must be a path of the worker process of SafePrimeWorkers.tla
